@@ -638,7 +638,7 @@ MIRI_RATES = ["0.01", "0.1", "0.3", "0.6"]
 
 def miri_env(seed, rate):
     env = dict(ENV)
-    env["MIRIFLAGS"] = "-Zmiri-seed=%d -Zmiri-preemption-rate=%s" % (seed, rate)
+    env["MIRIFLAGS"] = "-Zmiri-seed=%d -Zmiri-preemption-rate=%s -Zmiri-ignore-leaks" % (seed, rate)
     return env
 
 
@@ -734,16 +734,22 @@ class SeqRef:
         return False, "the sequential execution with creation order %s gives %s, not the observed %s" % (seq, p, prio)
 
 
-def c17_matrix(seed, count):
+def c17_matrix(seed, count, deep=False):
     rng = PyRng(seed ^ 0xC17)
     cfgs = []
     for i in range(count):
+        threads = 3 if rng.below(3) == 0 else 2
+        ops = 5 + rng.below(10)
+        if deep and i % 4 == 3:
+            # thorough tier only: more threads and longer histories on a quarter of the runs
+            threads = 3 + rng.below(2)
+            ops = 12 + rng.below(13)
         cfgs.append({
             "miri_seed": rng.below(1 << 31),
             "rate": MIRI_RATES[i % 4],
-            "threads": 3 if rng.below(3) == 0 else 2,
+            "threads": threads,
             "hseed": rng.below(1 << 40),
-            "ops": 5 + rng.below(10),
+            "ops": ops,
             "stamped": i % 2 == 0,
             "main_participates": rng.below(4) == 0,
         })
@@ -840,7 +846,7 @@ def check_c17(tier, seed):
         raise HarnessError("cannot run the program under Miri")
     build_s += time.time() - tb
 
-    cfgs = c17_matrix(seed, count)
+    cfgs = c17_matrix(seed, count, deep=(tier == "thorough"))
     reproducible = ref.reproducible(cfgs[0])
     if not reproducible:
         log("note: the sequential reference is not reproducible across processes; the stream clause is switched off for this run")
@@ -891,7 +897,7 @@ def check_c17(tier, seed):
         "exhaustive": False,
         "rule": (
             "A run = one execution of the multi-threaded program sim/mirisched under Miri with (-Zmiri-seed, -Zmiri-preemption-rate in {0.01,0.1,0.3,0.6}, 2-3 threads, "
-            "optionally the main thread as participant, per-thread history of 5-14 node creations / treap operations on thread-owned treaps). One Miri seed = one exactly repeatable schedule. "
+            "optionally the main thread as participant, per-thread history of 5-14 (thorough: up to 24, with up to 4 threads) node creations / treap operations on thread-owned treaps). One Miri seed = one exactly repeatable schedule. "
             "distinct_nontrivial = number of distinct global node-creation orders (sequence of thread ids sorted by a Relaxed stamp) with at least 2 thread switches, among the stamped half of the runs."
         ),
         "miri_executions": len(cfgs),
